@@ -125,6 +125,25 @@ Proof.
 Qed.
 Print Assumptions C17_abel_quadrature.
 
+(* ---- constructor arguments: a documented default is applied ONLY when the argument is omitted; whenever a value is
+        supplied -- including the falsy ones 0, 0.0, False, an all-zero array -- the problem's components are a
+        function of that value (WangCubic data / noise_std; the same `option` carries every default in the checks) *)
+Theorem C17_supplied_value_respected :
+  (forall (A : Type) (supplied : option A) (d : A),
+     (forall v, supplied = Some v -> with_default supplied d = v) /\ (supplied = None -> with_default supplied d = d)) /\
+  (forall a : cubic_args,
+     (forall v, ca_data a = Some v -> cp_data (cubic_construct a) = v) /\
+     (ca_data a = None -> cp_data (cubic_construct a) = 1%Qc) /\
+     (forall s, ca_noise_std a = Some s -> cp_cov (cubic_construct a) = (s * s)%Qc) /\
+     (ca_noise_std a = None -> cp_cov (cubic_construct a) = 1%Qc)).
+Proof. split; [intros A supplied d; exact (with_default_spec supplied d) | exact cubic_args_respected]. Qed.
+Print Assumptions C17_supplied_value_respected.
+
+(* in particular an observation of exactly zero stays zero *)
+Theorem C17_cubic_zero_data_kept : forall ns, cp_data (cubic_construct (mkCubicArgs ns (Some 0%Qc))) = 0%Qc.
+Proof. intros ns. reflexivity. Qed.
+Print Assumptions C17_cubic_zero_data_kept.
+
 (* non-vacuity: a PSF is produced, a legacy half row of the right length exists, stencils act on real inputs *)
 Example C17_deep_nonvacuous :
   (exists P, moffat_psf_1d 4 (qc (1 # 2)) = Some P) /\ (exists P, defocus_psf_1d true 5 (qc (1 # 1)) = Some P) /\
